@@ -147,6 +147,24 @@ def run(prog, tier):
                               what="K returned by covariance_and_gradients = build_covariance"))
         values[kname] = (K, grads, ci, cag)
 
+    # ---------------------------------------------------------------- the tables belong to the data that was passed last
+    # pass_spatial_data rebuilds every table it keeps, on every call: an early exit ("tables of this shape exist already") leaves the
+    # distances of the previous point set in place, and the builder then differs from the pairwise kernel on the new points
+    for base_ in ("CovarianceFunction", "MeanFunction"):
+        for kc_ in prog.subclasses(base_):
+            psd_ = kc_.methods.get("pass_spatial_data")
+            if psd_ is None or not psd_.args.args:
+                continue
+            sn_ = psd_.args.args[0].arg
+            stores_ = [st_.lineno for st_ in ast.walk(psd_) if isinstance(st_, (ast.Assign, ast.AugAssign))
+                       for t_ in (st_.targets if isinstance(st_, ast.Assign) else [st_.target])
+                       if isinstance(t_, ast.Attribute) and isinstance(t_.value, ast.Name) and t_.value.id == sn_]
+            if not stores_:
+                continue
+            early_ = [r_.lineno for r_ in ast.walk(psd_) if isinstance(r_, ast.Return) and r_.lineno < max(stores_)]
+            obs.append(struct_ob("builder-vs-pairwise", qual(kc_, psd_) + "[tables-refreshed]", not early_,
+                                 f"line {early_[0] if early_ else 0}: pass_spatial_data returns before its tables are rebuilt - a later point set "
+                                 f"of the same shape is evaluated with the earlier set's tables", kc_.module.relpath, psd_.lineno, tier="F"))
     # ---------------------------------------------------------------- gradients
     def grad_ob(kname, label, got, wrt, K, ci, cag, note=""):
         want = anf.diff(K, ("sym", wrt), pointwise_sum=True)
